@@ -1,2 +1,2 @@
--- C04 property theorems (to be written)
-import Nq.Basic
+-- C04 property theorems (in progress)
+import Nq.Daemon
